@@ -34,6 +34,7 @@ extern long vf_fail_k;             /* 0 = off */
 extern const char *vf_fail_func;
 extern long vf_fail_seen;          /* matching requests seen since arm */
 extern long vf_fail_fired;
+extern int  vf_fail_sticky;        /* if set, every matching request from the k-th on fails (memory stays exhausted) */
 extern long vf_expand_requests;    /* allocations made by *expand / *LUMemInit growth */
 
 void  vf_reset_case(void);         /* clear plans + counters (not the ledger) */
